@@ -337,6 +337,293 @@ fn ivs_case(s: &mut Session, axis_count: u16, regions: &[Vec<Axis>], cols: &[(u1
     });
 }
 
+// ---------------------------------------------------------------- batch 2: fvar normalize, cmap4, glyf, cvar
+
+fn fvar_bytes(min: i32, def: i32, max: i32) -> Vec<u8> {
+    let mut b = vec![0, 1, 0, 0];
+    b.extend_from_slice(&16u16.to_be_bytes()); // axesArrayOffset
+    b.extend_from_slice(&2u16.to_be_bytes()); // reserved
+    b.extend_from_slice(&1u16.to_be_bytes()); // axisCount
+    b.extend_from_slice(&20u16.to_be_bytes()); // axisSize
+    b.extend_from_slice(&0u16.to_be_bytes()); // instanceCount
+    b.extend_from_slice(&4u16.to_be_bytes()); // instanceSize
+    b.extend_from_slice(b"wght");
+    b.extend_from_slice(&min.to_be_bytes());
+    b.extend_from_slice(&def.to_be_bytes());
+    b.extend_from_slice(&max.to_be_bytes());
+    b.extend_from_slice(&0u16.to_be_bytes());
+    b.extend_from_slice(&256u16.to_be_bytes());
+    b
+}
+
+fn normalize_case(s: &mut Session, min: i32, def: i32, max: i32, v: i32) {
+    let bytes = fvar_bytes(min, def, max);
+    k(s, "norm.axis", format!("norm.axis {min} {def} {max} {v}"), || {
+        let fvar = read_fonts::tables::fvar::Fvar::read(FontData::new(&bytes)).unwrap();
+        fvar.axes().unwrap()[0].normalize(Fixed::from_bits(v)).to_bits()
+    });
+    k(s, "norm.f2", format!("norm.f2 {min} {def} {max} {v}"), || {
+        let fvar = read_fonts::tables::fvar::Fvar::read(FontData::new(&bytes)).unwrap();
+        fvar.axes().unwrap()[0].normalize(Fixed::from_bits(v)).to_f2dot14().to_bits()
+    });
+}
+
+struct Cmap4Spec {
+    seg_count_x2: u16,
+    starts: Vec<u16>,
+    ends: Vec<u16>,
+    deltas: Vec<i16>,
+    range_offsets: Vec<u16>,
+    glyph_ids: Vec<u16>,
+}
+
+fn cmap4_bytes(c: &Cmap4Spec) -> Vec<u8> {
+    let n = c.starts.len();
+    let mut b = vec![];
+    b.extend_from_slice(&4u16.to_be_bytes());
+    let len = 16 + 8 * n + 2 * c.glyph_ids.len();
+    b.extend_from_slice(&(len as u16).to_be_bytes());
+    b.extend_from_slice(&0u16.to_be_bytes());
+    b.extend_from_slice(&c.seg_count_x2.to_be_bytes());
+    b.extend_from_slice(&[0; 6]);
+    for v in &c.ends {
+        b.extend_from_slice(&v.to_be_bytes());
+    }
+    b.extend_from_slice(&[0, 0]);
+    for v in &c.starts {
+        b.extend_from_slice(&v.to_be_bytes());
+    }
+    for v in &c.deltas {
+        b.extend_from_slice(&v.to_be_bytes());
+    }
+    for v in &c.range_offsets {
+        b.extend_from_slice(&v.to_be_bytes());
+    }
+    for v in &c.glyph_ids {
+        b.extend_from_slice(&v.to_be_bytes());
+    }
+    b
+}
+
+fn cmap4_case(s: &mut Session, c: &Cmap4Spec, cp: u32) {
+    let bytes = cmap4_bytes(c);
+    // the request carries the arrays as the parsed table exposes them
+    let Ok(t) = read_fonts::tables::cmap::Cmap4::read(FontData::new(&bytes)) else {
+        s.count("cmap4: unreadable subtable skipped");
+        return;
+    };
+    let n = t.start_code().len();
+    if t.end_code().len() != n || t.id_delta().len() != n || t.id_range_offsets().len() != n {
+        s.count("cmap4: uneven arrays skipped");
+        return;
+    }
+    let mut req = format!("cmap4.map {cp} {} {n}", t.seg_count_x2());
+    for v in t.start_code() {
+        req.push_str(&format!(" {}", v.get()));
+    }
+    for v in t.end_code() {
+        req.push_str(&format!(" {}", v.get()));
+    }
+    for v in t.id_delta() {
+        req.push_str(&format!(" {}", v.get()));
+    }
+    for v in t.id_range_offsets() {
+        req.push_str(&format!(" {}", v.get()));
+    }
+    req.push_str(&format!(" {}", t.glyph_id_array().len()));
+    for v in t.glyph_id_array() {
+        req.push_str(&format!(" {}", v.get()));
+    }
+    if read_fonts::tables::cmap::Cmap4::read(FontData::new(&bytes)).is_err() {
+        s.count("cmap4: unreadable subtable skipped");
+        return;
+    }
+    k(s, "cmap4.map", req, || {
+        let t = read_fonts::tables::cmap::Cmap4::read(FontData::new(&bytes)).unwrap();
+        match t.map_codepoint(cp) {
+            Some(g) => g.to_u32().to_string(),
+            None => "none".into(),
+        }
+    });
+}
+
+/// one simple glyph from per-point (flag bits, x raw, y raw); flags are written without repeats
+/// or with a run-length encoding of equal consecutive flags
+fn glyph_case(s: &mut Session, rng: &mut Rng) {
+    let n = 1 + rng.below(12) as usize;
+    let mut flags: Vec<u8> = vec![];
+    let mut xs: Vec<(bool, bool, i32)> = vec![];
+    let mut ys: Vec<(bool, bool, i32)> = vec![];
+    for i in 0..n {
+        let f = if i > 0 && rng.chance(1, 3) { flags[i - 1] } else { (rng.next() as u8) & 0x37 };
+        flags.push(f);
+        let pick16 = |rng: &mut Rng| *rng.pick(&[i16::MIN, -32767, -256, -1, 0, 1, 255, 256, 32767]);
+        let xsht = f & 0x02 != 0;
+        let xsame = f & 0x10 != 0;
+        let xr = if xsht { *rng.pick(&[0u8, 1, 127, 128, 255]) as i32 } else if !xsame { pick16(rng) as i32 } else { 0 };
+        xs.push((xsht, xsame, xr));
+        let ysht = f & 0x04 != 0;
+        let ysame = f & 0x20 != 0;
+        let yr = if ysht { *rng.pick(&[0u8, 1, 127, 128, 255]) as i32 } else if !ysame { pick16(rng) as i32 } else { 0 };
+        ys.push((ysht, ysame, yr));
+    }
+    // encode
+    let mut b: Vec<u8> = vec![];
+    b.extend_from_slice(&1i16.to_be_bytes());
+    b.extend_from_slice(&[0; 8]);
+    b.extend_from_slice(&((n - 1) as u16).to_be_bytes());
+    b.extend_from_slice(&0u16.to_be_bytes());
+    let mut i = 0;
+    while i < n {
+        let mut run = 1;
+        while i + run < n && flags[i + run] == flags[i] && run < 256 {
+            run += 1;
+        }
+        if run > 1 && rng.chance(2, 3) {
+            b.push(flags[i] | 0x08);
+            b.push((run - 1) as u8);
+            i += run;
+        } else {
+            b.push(flags[i]);
+            i += 1;
+        }
+    }
+    for (sh, same, r) in &xs {
+        if *sh {
+            b.push(*r as u8);
+        } else if !*same {
+            b.extend_from_slice(&(*r as i16).to_be_bytes());
+        }
+    }
+    for (sh, same, r) in &ys {
+        if *sh {
+            b.push(*r as u8);
+        } else if !*same {
+            b.extend_from_slice(&(*r as i16).to_be_bytes());
+        }
+    }
+    let req_of = |cmd: &str, ax: &[(bool, bool, i32)]| {
+        let mut r = cmd.to_string();
+        for (a, b2, c) in ax {
+            r.push_str(&format!(" {} {} {c}", *a as u8, *b2 as u8));
+        }
+        r
+    };
+    use read_fonts::tables::glyf::{PointFlags, SimpleGlyph};
+    use read_fonts::types::Point;
+    for (axis, ax) in [(0, &xs), (1, &ys)] {
+        k(s, "glyf.iteraxis", req_of("glyf.iteraxis", ax), || {
+            let g = SimpleGlyph::read(FontData::new(&b)).unwrap();
+            let v: Vec<i32> = g.points().map(|p| if axis == 0 { p.x as i32 } else { p.y as i32 }).collect();
+            assert_eq!(v.len(), n, "point count");
+            join(&v)
+        });
+        k(s, "glyf.fastaxis", req_of("glyf.fastaxis", ax), || {
+            let g = SimpleGlyph::read(FontData::new(&b)).unwrap();
+            let mut pts = vec![Point::<i32>::default(); n];
+            let mut fl = vec![PointFlags::default(); n];
+            g.read_points_fast(&mut pts, &mut fl).unwrap();
+            let v: Vec<i32> = pts.iter().map(|p| if axis == 0 { p.x } else { p.y }).collect();
+            join(&v)
+        });
+    }
+}
+
+/// cvar with one axis: tuple `k` has peak `tuples[k].0` and one delta for cvt[0]
+fn cvar_multi_bytes(tuples: &[(i16, i16)]) -> Vec<u8> {
+    let mut hdr = vec![];
+    let mut data = vec![];
+    for (peak, d) in tuples {
+        hdr.extend_from_slice(&4u16.to_be_bytes()); // variationDataSize
+        hdr.extend_from_slice(&0xA000u16.to_be_bytes()); // embedded peak + private points
+        hdr.extend_from_slice(&peak.to_be_bytes());
+        data.extend_from_slice(&[0x00, 0x40]); // all points; one word delta
+        data.extend_from_slice(&d.to_be_bytes());
+    }
+    let mut b = vec![0, 1, 0, 0];
+    b.extend_from_slice(&(tuples.len() as u16).to_be_bytes());
+    b.extend_from_slice(&((8 + hdr.len()) as u16).to_be_bytes());
+    b.extend_from_slice(&hdr);
+    b.extend_from_slice(&data);
+    b
+}
+
+fn cvar_case(s: &mut Session, tuples: &[(i16, i16)], coord: i16) {
+    let bytes = cvar_multi_bytes(tuples);
+    let mut req = format!("cvar.delta {coord}");
+    for (p, d) in tuples {
+        req.push_str(&format!(" {p} {d}"));
+    }
+    k(s, "cvar.delta", req, || {
+        let cvar = Cvar::read(FontData::new(&bytes)).unwrap();
+        let mut out = [0i32; 1];
+        cvar.deltas(1, &[F2Dot14::from_bits(coord)], &mut out).unwrap();
+        out[0]
+    });
+}
+
+fn batch2(s: &mut Session, rng: &mut Rng, g32: &[i32], g16: &[i16], scale: u64) {
+    // fvar normalize: boundary axis records x boundary values
+    let fx: Vec<i32> = vec![i32::MIN, i32::MIN + 1, -0x7FFF_0000, -65536 * 1000, -65536, -1, 0, 1, 65536, 100 * 65536, 400 * 65536, 900 * 65536, 0x7FFF_0000, i32::MAX - 1, i32::MAX];
+    for &mn in &fx {
+        for &df in &fx {
+            for &mx in &fx {
+                for &v in &[i32::MIN, mn, mn.wrapping_add(1), df.wrapping_sub(1), df, df.wrapping_add(1), mx, 0, i32::MAX] {
+                    normalize_case(s, mn, df, mx, v);
+                }
+            }
+        }
+    }
+    for _ in 0..3_000 * scale {
+        let p = |rng: &mut Rng| if rng.chance(1, 2) { *rng.pick(g32) } else { (rng.next() as i32) >> rng.below(32) };
+        normalize_case(s, p(rng), p(rng), p(rng), p(rng));
+    }
+    // cmap4
+    for _ in 0..4_000 * scale {
+        let n = 1 + rng.below(5) as usize;
+        let mut cuts: Vec<u16> = (0..2 * n).map(|_| if rng.chance(1, 3) { *rng.pick(&[0u16, 1, 0x7FFF, 0x8000, 0xFFFE, 0xFFFF]) } else { rng.below(0x10000) as u16 }).collect();
+        if rng.chance(4, 5) {
+            cuts.sort();
+        }
+        let starts: Vec<u16> = (0..n).map(|i| cuts[2 * i]).collect();
+        let ends: Vec<u16> = (0..n).map(|i| cuts[2 * i + 1]).collect();
+        let m = rng.below(6) as usize;
+        let spec = Cmap4Spec {
+            seg_count_x2: if rng.chance(5, 6) { (2 * n) as u16 } else { *rng.pick(&[0u16, 1, 3, 0xFFFF, 0x8000, (2 * n + 2) as u16]) },
+            deltas: (0..n).map(|_| *rng.pick(g16)).collect(),
+            range_offsets: (0..n).map(|i| match rng.below(5) { 0 | 1 => 0, 2 => (2 * (n - i)) as u16, 3 => *rng.pick(&[1u16, 2, 3, 0xFFFE, 0xFFFF, 0x8000]), _ => (2 * (n - i) + 2 * rng.below(4) as usize) as u16 }).collect(),
+            glyph_ids: (0..m).map(|_| *rng.pick(&[0u16, 1, 2, 0x7FFF, 0x8000, 0xFFFF])).collect(),
+            starts,
+            ends,
+        };
+        let mut cps: Vec<u32> = vec![0, 0xFFFF, rng.below(0x10000) as u32];
+        for i in 0..n {
+            cps.push(spec.starts[i] as u32);
+            cps.push(spec.ends[i] as u32);
+            cps.push((spec.starts[i] as u32 + spec.ends[i] as u32) / 2);
+        }
+        for cp in cps {
+            cmap4_case(s, &spec, cp);
+        }
+    }
+    // glyf point decoding
+    for _ in 0..3_000 * scale {
+        glyph_case(s, rng);
+    }
+    // cvar accumulation
+    for _ in 0..2_000 * scale {
+        let n = 1 + rng.below(4) as usize;
+        let tuples: Vec<(i16, i16)> = (0..n).map(|_| (*rng.pick(&[16384i16, -16384, 8192, 1, 32767, -32768, 0]), *rng.pick(&[i16::MIN, -16384, -1, 0, 1, 16383, 16384, 20000, i16::MAX]))).collect();
+        let coord = *rng.pick(&[16384i16, -16384, 8192, 1, 32767, -32768, 0, 4096]);
+        cvar_case(s, &tuples, coord);
+    }
+    cvar_case(s, &[(16384, 16384), (16384, 16384)], 16384);
+    // klippa padded_size
+    for l in [0usize, 1, 2, 3, 0xFFFF, 0x1FFFE, 0xFFFF_FFFF, usize::MAX - 1] {
+        k(s, "pad.size", format!("pad.size {l}"), || klippa::verif_hooks::padded_size(l));
+    }
+}
+
 fn rand_axis(rng: &mut Rng, g16: &[i16]) -> Axis {
     match rng.below(4) {
         0 => (*rng.pick(g16), *rng.pick(g16), *rng.pick(g16)),
@@ -505,6 +792,7 @@ fn run_inner(cfg: &Config, s: &mut Session) {
         let coords: Vec<i16> = (0..rng.below(3)).map(|_| if rng.chance(1, 2) { 16384 } else { *rng.pick(&g16) }).collect();
         ivs_case(s, axis_count, &regions, &cols, &coords);
     }
+    batch2(s, &mut rng, &g32, &g16, scale);
     // worst-case accumulation: the maximal number of columns, extreme deltas, scalar 1.0
     for (n, d) in [(65535usize, i32::MIN), (65535, i32::MAX), (32767, i32::MIN), (32767, i32::MAX), (3, i32::MIN), (1, i32::MIN)] {
         let cols: Vec<(u16, i32)> = (0..n).map(|_| (0u16, d)).collect();
